@@ -139,40 +139,56 @@ static int gc_watch(void) {
   if (g_gc_off < 0) g_gc_off = getenv("K2_NOEDIT") != NULL;
   return !g_gc_off && g_quiet_flag_ptr_is_zero();
 }
-static char *g_gc_buf = NULL; static size_t g_gc_cap = 0, g_gc_len = 0;
+typedef struct { char *p; size_t cap, len; } gcbuf_t;
+static gcbuf_t g_gc_state, g_gc_list;
+static int g_gc_have_state = 0, g_gc_have_list = 0;
 static int g_nogc = 0;        /* > 0 while ldb_backup / ldb_copy run: they list the directory after add_files too */
-static void gc_put(const char *fmt, unsigned long long v) {
-  if (g_gc_len + 64 > g_gc_cap) { g_gc_cap = g_gc_cap ? g_gc_cap * 2 : 4096; g_gc_buf = realloc(g_gc_buf, g_gc_cap); }
-  g_gc_len += (size_t)sprintf(g_gc_buf + g_gc_len, fmt, v);
+static void gc_put(gcbuf_t *b, const char *fmt, unsigned long long v) {
+  if (b->len + 64 > b->cap) { b->cap = b->cap ? b->cap * 2 : 4096; b->p = realloc(b->p, b->cap); }
+  b->len += (size_t)sprintf(b->p + b->len, fmt, v);
+}
+static void gc_puts(gcbuf_t *b, const char *str) {
+  size_t n = strlen(str);
+  while (b->len + n + 8 > b->cap) { b->cap = b->cap ? b->cap * 2 : 4096; b->p = realloc(b->p, b->cap); }
+  memcpy(b->p + b->len, str, n + 1); b->len += n;
+}
+/* the collector needs the live set and the directory listing, in either order: the event is printed when both are there */
+static void gc_emit(const char *order) {
+  printf("%s dir=%s order=%s\n", g_gc_state.p, g_gc_list.len ? g_gc_list.p : ".", order);
+  g_gc_have_state = g_gc_have_list = 0;
+  g_gc_phase = 2;
 }
 void __wrap_ldb_versions_add_files(ldb_versions_t *vset, rb_set64_t *live) {
   __real_ldb_versions_add_files(vset, live);
   g_gc_phase = 0;
   if (gc_watch() && !g_nogc) {
     rb_iter_t it; int first = 1;
-    g_gc_len = 0;
-    gc_put("GC live=%.0llu", 0);
-    rb_set64_each(live, it) { gc_put(first ? "%llu" : ",%llu", (unsigned long long)rb_key_ui(it)); first = 0; }
-    if (first) gc_put(".%.0llu", 0);
-    gc_put(" log=%llu", (unsigned long long)vset->log_number);
-    gc_put(" prev=%llu", (unsigned long long)vset->prev_log_number);
-    gc_put(" man=%llu", (unsigned long long)vset->manifest_file_number);
-    g_gc_phase = 1;       /* the state is printed only if a directory listing follows (the collector; recovery lists first) */
+    g_gc_state.len = 0;
+    gc_put(&g_gc_state, "GC live=%.0llu", 0);
+    rb_set64_each(live, it) { gc_put(&g_gc_state, first ? "%llu" : ",%llu", (unsigned long long)rb_key_ui(it)); first = 0; }
+    if (first) gc_put(&g_gc_state, ".%.0llu", 0);
+    gc_put(&g_gc_state, " log=%llu", (unsigned long long)vset->log_number);
+    gc_put(&g_gc_state, " prev=%llu", (unsigned long long)vset->prev_log_number);
+    gc_put(&g_gc_state, " man=%llu", (unsigned long long)vset->manifest_file_number);
+    g_gc_have_state = 1;
+    if (g_gc_have_list) gc_emit("ls");      /* listing first: recovery's missing-file check, or a collector that lists first */
+  } else {
+    g_gc_have_state = g_gc_have_list = 0;
   }
 }
 int __wrap_ldb_get_children(const char *path, char ***out) {
   int len = __real_ldb_get_children(path, out);
-  if (g_gc_phase == 1) {
-    int i; size_t j;
-    printf("%s dir=", g_gc_buf);
+  if (gc_watch() && !g_nogc && len >= 0) {
+    int i; size_t j; char hx[4];
+    g_gc_list.len = 0; gc_puts(&g_gc_list, "");
     for (i = 0; i < len; i++) {
       const char *nm = (*out)[i];
-      if (i) printf(",");
-      for (j = 0; nm[j]; j++) printf("%02x", (unsigned char)nm[j]);
+      if (i) gc_puts(&g_gc_list, ",");
+      for (j = 0; nm[j]; j++) { sprintf(hx, "%02x", (unsigned char)nm[j]); gc_puts(&g_gc_list, hx); }
     }
-    if (len <= 0) printf(".");
-    printf("\n");
-    g_gc_phase = 2;
+    g_gc_have_list = 1;
+    if (g_gc_have_state) gc_emit("sl");
+    else g_gc_phase = 0;
   }
   return len;
 }
@@ -194,7 +210,7 @@ static int g_quiet_flag_ptr_is_zero(void) { return g_quiet == 0; }
 int __wrap_ldb_versions_apply(ldb_versions_t *vset, ldb_edit_t *edit, ldb_mutex_t *mu) {
   rb_iter_t it; size_t i; int rc; int first;
   uint64_t snap = vset->last_sequence;
-  g_gc_phase = 0;
+  g_gc_phase = 0; g_gc_have_state = g_gc_have_list = 0;
   static int noedit = -1;
   if (noedit < 0) noedit = getenv("K2_NOEDIT") != NULL;   /* threaded runs: the background thread's edits would interleave with RET lines */
   if (g_quiet || noedit) return __real_ldb_versions_apply(vset, edit, mu);
@@ -383,7 +399,7 @@ int main(int argc, char **argv) {
   while (getline(&line, &cap, stdin) > 0) {
     int n = split_line(line, a, 16);
     if (n == 0) continue;
-    g_gc_phase = 0;
+    g_gc_phase = 0; g_gc_have_state = g_gc_have_list = 0;
     printf("CALL %ld %s\n", callno, a[0]);
     k3_mark('A', callno, a[0]);
     callno++;
